@@ -137,8 +137,8 @@ type Interp struct {
 }
 
 type ChanObj struct {
-	buf []Value
-	cap int
+	buf    []Value
+	cap    int
 	closed bool
 }
 
